@@ -2,10 +2,13 @@
 """Store the round-2 deliverables: breaking changes as seeded/<Cxx>-<k+3>/ and behaviour-preserving
 refactorings as seeded/refactors/<Cxx>-r<k>/ (confirmation data from tools/eval_seeded.py output in <resdir>).
 
-usage: tools/store_round2.py <resdir with Cxx.json / Cxx.ref.json> <srcroot with Cxx/_seeded/>"""
+usage: [CHANGE_OFFSET=3 REFACTOR_OFFSET=0 ROUND=2] tools/store_round2.py <resdir with Cxx.json / Cxx.ref.json> <srcroot with Cxx/_seeded/>"""
 import json, os, shutil, sys
 VERIF = os.path.dirname(os.path.dirname(os.path.abspath(__file__)))
 res_dir, src_root = sys.argv[1], sys.argv[2]
+CH_OFF = int(os.environ.get("CHANGE_OFFSET", "3"))
+RF_OFF = int(os.environ.get("REFACTOR_OFFSET", "0"))
+ROUND = int(os.environ.get("ROUND", "2"))
 n_c = n_r = 0
 for i in range(1, 21):
     p = f"C{i:02d}"
@@ -19,14 +22,14 @@ for i in range(1, 21):
             if not r.get("confirmed"):
                 print("not confirmed:", p, r.get("k")); continue
             k = int(r["k"])
-            sid = f"{p}-{k + 3}"
+            sid = f"{p}-{k + CH_OFF}"
             d = os.path.join(VERIF, "seeded", sid)
             os.makedirs(d, exist_ok=True)
             shutil.copy(os.path.join(src, f"change{k}.diff"), os.path.join(d, "patch.diff"))
             shutil.copy(os.path.join(src, f"demo{k}.py"), os.path.join(d, "demo.py"))
             note = open(os.path.join(src, f"note{k}.txt")).read().strip() if os.path.exists(os.path.join(src, f"note{k}.txt")) else ""
             meta = {
-                "id": sid, "breaks_property": p, "round": 2,
+                "id": sid, "breaks_property": p, "round": ROUND,
                 "origin": "independent sub-agent given only the property text, the list of changes already known, and a scratch worktree",
                 "what_it_needs_to_manifest": note,
                 "files_changed": r.get("changed_files", []),
@@ -48,13 +51,13 @@ for i in range(1, 21):
             if not r.get("valid"):
                 print("refactor not valid:", p, r.get("k")); continue
             k = int(r["k"])
-            sid = f"{p}-r{k}"
+            sid = f"{p}-r{k + RF_OFF}"
             d = os.path.join(VERIF, "seeded", "refactors", sid)
             os.makedirs(d, exist_ok=True)
             shutil.copy(os.path.join(src, f"refactor{k}.diff"), os.path.join(d, "patch.diff"))
             note = open(os.path.join(src, f"rnote{k}.txt")).read().strip() if os.path.exists(os.path.join(src, f"rnote{k}.txt")) else ""
             meta = {
-                "id": sid, "kind": "behaviour-preserving refactoring (must stay silent)", "written_for_property": p,
+                "id": sid, "kind": "behaviour-preserving refactoring (must stay silent)", "written_for_property": p, "round": ROUND,
                 "origin": "independent sub-agent given only the property text and a scratch worktree",
                 "what_it_changes": note,
                 "files_changed": r.get("changed_files", []),
